@@ -254,6 +254,8 @@ pub struct Host {
     /// simulation make progress (host peers, subtasks)
     pub wait_pump: Option<fn() -> bool>,
     pub error_contexts: u32,
+    /// indices the guest dropped with error-context.drop since the harness last cleared this list
+    pub errctx_recent_drops: Vec<u32>,
     pub notes: Vec<String>,
     /// handles whose event was consumed since the guest side last looked
     pub delivered: Vec<u32>,
@@ -342,6 +344,7 @@ impl Host {
             in_wait: 0,
             wait_pump: None,
             error_contexts: 0,
+            errctx_recent_drops: vec![],
             notes: vec![],
             delivered: vec![],
             on_block_wait: None,
@@ -421,6 +424,28 @@ impl Host {
     fn free_index(&mut self, i: u32) {
         self.table[i as usize] = None;
         self.free.push(i);
+    }
+    /// `error-context` entries. Lifting one out of the guest's table leaves it
+    /// there (the guest still owns its handle and must drop it); lowering one
+    /// into the table adds a new entry.
+    pub fn errctx_new(&mut self, msg: String) -> u32 {
+        self.error_contexts += 1;
+        self.alloc_index(Entry::ErrCtx(msg))
+    }
+    pub fn errctx_get(&self, i: u32) -> Option<&str> {
+        match self.table.get(i as usize) {
+            Some(Some(Entry::ErrCtx(s))) => Some(s.as_str()),
+            _ => None,
+        }
+    }
+    pub fn errctx_drop(&mut self, i: u32) -> bool {
+        if self.errctx_get(i).is_none() {
+            return false;
+        }
+        self.free_index(i);
+        self.error_contexts -= 1;
+        self.errctx_recent_drops.push(i);
+        true
     }
     pub fn end_ref(&self, i: u32) -> Option<&End> {
         match self.table.get(i as usize) {
